@@ -461,6 +461,7 @@ def plan(tier, seed):
     reps = [dict(kind='repeat', inp=list(i), k=k) for i in REPEAT_INPUTS for k in (2, 3)]
     files = [dict(kind='file', name=f) for f in FILES]
     reps += [dict(kind='twocopies', lig=l, partner=p_, k=k) for l, p_ in TWO_COPIES for k in (1, 2)]
+    reps += [dict(kind='twins-single', a=a, b=b) for a, b in (('GLU', 'GLU'), ('LYS', 'LYS'), ('ASP', 'ASP'), ('HIS', 'HIS'), ('GLU', 'LYS'))]
     shards = [lay[i:i + 40] for i in range(0, len(lay), 40)] + [reps[i:i + 4] for i in range(0, len(reps), 4)] + [[f] for f in files]
     return dict(shards=shards, exhaustive=True,
                 rule=('alt-loc layouts: all ordered choices of <= 3 tags from {blank,A,B,C,1,2} mapping to distinct '
@@ -506,6 +507,20 @@ def run_case(case, ctx, acc):
         sig = sorted((kk.split(':')[3], c) for kk, c in per.items())
         acc.case(nontrivial_key=jhash(case) if nt else None, outcome=jhash([len(names), sig]),
                  sample=dict(case=case, text=text[:300]))
+        inputs = dict(pdb=text)
+    elif k == 'twins-single':
+        # one conformation, two residues of the same type that differ only in insertion code: the average is that conformation
+        from . import c09
+        text = c09.real_text(('twins', case['a'], case['b']), ctx.seed)
+        mol = pk.run(text, write=True)
+        rec = pk.record(mol)
+        name = rec['conformations'][0]
+        only_conf = dict(rec['confs'][name])
+        only_conf['groups'] = [g for g in only_conf['groups'] if g['use']]
+        d = cmp.diff_conf(rec['confs']['AVR'], only_conf)
+        acc.case(nontrivial_key=jhash(case), outcome='twins-single')
+        if d:
+            viols.append(('single-conformation-avr-differs/same-type-twins/' + d[0][0], str(d[0])))
         inputs = dict(pdb=text)
     elif k == 'repeat':
         inp = case['inp']
